@@ -64,8 +64,13 @@ def check_case(case):
             out.append(("C01:compute_dstatedt:unexpected-exception", "%s: %s" % (type(e).__name__, e)))
     if "dxdtf" in obs:
         try:
-            g = system.make_dxdtf(units_system=us)(0.0, [float(v) for v in spec["state"]])
+            fn = system.make_dxdtf(units_system=us)
+            g = fn(0.0, [float(v) for v in spec["state"]])
             _cmp("make_dxdtf:" + case["sub"], [float(v) for v in g], f, sc, zeros, out)
+            # the returned function is a pure function of (t, x): an ODE solver calls it many times, at other states too
+            fn(0.5, [float(v) * 1.5 + 1.0 for v in spec["state"]])
+            g = fn(1.0, [float(v) for v in spec["state"]])
+            _cmp("make_dxdtf:called-again:" + case["sub"], [float(v) for v in g], f, sc, zeros, out)
             if all(float(v) == int(v) for v in spec["state"]):
                 # the same amounts handed over as Python ints / as a tuple
                 g = system.make_dxdtf(units_system=us)(0.0, tuple(int(v) for v in spec["state"]))
